@@ -9,8 +9,12 @@ Contract == {"InvalidExpression", "OutOfTokens", "InvalidSyntax", "UnexpectedBeh
 RECURSIVE NormT(_)
 NormT(t) == CASE t.k = "c" -> [k |-> "c", v |-> ConstM(t, P)] [] t.k = "v" -> t
               [] IsUn(t.k) -> [k |-> t.k, c |-> NormT(t.c)] [] OTHER -> [k |-> t.k, l |-> NormT(t.l), r |-> NormT(t.r)]
+\* the projected term; for trees nested deeper than the JSON reader allows (255 levels) it is rebuilt from the flat heap
+TermOfEvent(e) == IF e.deep THEN TermOf(e.h, e.root) ELSE e.term
 Verdict(e) ==
+  IF e.outcome = "ok" /\ e.deep /\ WFExprFailing(e.h, e.root) # {} THEN WFExprFailing(e.h, e.root) ELSE
   LET tk == SpecTokens(e.buf, FALSE, SgnTable)
+      et == IF e.outcome = "ok" THEN TermOfEvent(e) ELSE [k |-> "other"]
       ref == IF tk.ok THEN ParseToks(tk.toks) ELSE Fail
       acc == e.outcome = "ok"
   IN  (IF acc = ref.ok THEN {} ELSE {IF acc THEN "accepts_underivable" ELSE "rejects_derivable"})
@@ -19,12 +23,12 @@ Verdict(e) ==
  \cup (IF e.rep.outcome = e.outcome /\ e.rep.same THEN {} ELSE {"repeat_differs"})
  \cup (IF e.shared_same THEN {} ELSE {"long_lived_parser_differs"})
  \cup (IF acc THEN WFExprFailing(e.h, e.root) ELSE {})
- \cup (IF acc /\ ~KnownKinds(e.term) THEN {"result_not_expression"} ELSE
+ \cup (IF acc /\ ~KnownKinds(et) THEN {"result_not_expression"} ELSE
        IF acc /\ ref.ok THEN
-            (IF Same(e.term, ref.ast) THEN {} ELSE {"value"})
-       \cup (IF OperandsKept(e.term, tk.toks) THEN {} ELSE {"operands"})
-       \cup (IF Vars(e.term) = Vars(ref.ast) THEN {} ELSE {"vars"})
-       \cup (IF NormT(e.term) = NormT(ref.ast) THEN {} ELSE {"drift_ast"})
+            (IF Same(et, ref.ast) THEN {} ELSE {"value"})
+       \cup (IF OperandsKept(et, tk.toks) THEN {} ELSE {"operands"})
+       \cup (IF Vars(et) = Vars(ref.ast) THEN {} ELSE {"vars"})
+       \cup (IF NormT(et) = NormT(ref.ast) THEN {} ELSE {"drift_ast"})
        ELSE {})
 VARIABLES i, v
 Init == i \in 1..N /\ v = {"pending"}
